@@ -116,6 +116,7 @@ def check(ctx):
             ctx.ob("R17.1", f"{k}|benign-reader", True, site, f"unsynchronised reader listed benign: {cls[1]}", nontrivial=False)
     ctx.floor("R17.1", 16)
     check_refcount_pairing(ctx)
+    _share_live_list_maintenance(ctx)
     # ------------------------------------------------------------------ R17.3 drain before release
     S.check_drain_before_release(ctx, "R17.3")
     # ------------------------------------------------------------------ R17.4 fan-out reads the live list, not a snapshot
@@ -206,3 +207,17 @@ def check_refcount_pairing(ctx):
         ctx.ob("R17.2", f"{k}|one-reference-consumed-per-iteration", (lo, hi) == (1, 1), body.loc(cp[0][0]),
                f"between {lo} and {hi} raw copies (each owning one pre-loaded reference) per loop iteration; required exactly 1 on every path -- an iteration that makes no copy "
                "(listener vanished after the count was read) must still give its reference back, otherwise the count never reaches zero and the payload's pool slot stays occupied forever")
+
+
+def _share_live_list_maintenance(ctx):
+    """R17.7 the live list is only ever rebuilt as a whole (sorted, dense, sentinel-terminated), once per id take / release -- shared with C10 R10.2.
+    The senders' unsynchronised walk (the listed findings) is at least monotone over such a list when a listener *behind* the walk changes; a list patched in
+    place (append on create, truncate on drop) loses the order the rebuild guarantees and reshuffles entries the walk already passed."""
+    import importlib
+    C10 = importlib.import_module("props.C10")
+    sub = util.fresh_ctx(ctx)
+    C10.check(sub)
+    for o in sub.obs:
+        if o["rule"] == "R10.2" and ("resyncs-live-list" in o["key"]):
+            ctx.ob("R17.7", o["key"].split("|", 1)[1] if o["key"].startswith("R10.2|") else o["key"], o["ok"], o["site"], o["detail"], o["nontrivial"])
+    ctx.floor("R17.7", 2)
